@@ -148,6 +148,9 @@ Engine/TimeMgr.vos Engine/TimeMgr.vok Engine/TimeMgr.required_vos: Engine/TimeMg
 Engine/TimeMgrProofs.vo Engine/TimeMgrProofs.glob Engine/TimeMgrProofs.v.beautified Engine/TimeMgrProofs.required_vo: Engine/TimeMgrProofs.v Engine/TimeMgr.vo
 Engine/TimeMgrProofs.vio: Engine/TimeMgrProofs.v Engine/TimeMgr.vio
 Engine/TimeMgrProofs.vos Engine/TimeMgrProofs.vok Engine/TimeMgrProofs.required_vos: Engine/TimeMgrProofs.v Engine/TimeMgr.vos
+Engine/UciSession.vo Engine/UciSession.glob Engine/UciSession.v.beautified Engine/UciSession.required_vo: Engine/UciSession.v Chess/Rules.vo Chess/Fen.vo
+Engine/UciSession.vio: Engine/UciSession.v Chess/Rules.vio Chess/Fen.vio
+Engine/UciSession.vos Engine/UciSession.vok Engine/UciSession.required_vos: Engine/UciSession.v Chess/Rules.vos Chess/Fen.vos
 Gen/BitbaseDump.vo Gen/BitbaseDump.glob Gen/BitbaseDump.v.beautified Gen/BitbaseDump.required_vo: Gen/BitbaseDump.v 
 Gen/BitbaseDump.vio: Gen/BitbaseDump.v 
 Gen/BitbaseDump.vos Gen/BitbaseDump.vok Gen/BitbaseDump.required_vos: Gen/BitbaseDump.v 
